@@ -165,14 +165,38 @@ func specItemOK(it SourceDescriptionItem) bool { return it.Type != SDESEnd && le
 
 // ---- draft-alvestrand-rmcat-remb-03 section 2.2: bitrate = mantissa * 2^exp ----
 
-// specPow2f is 2^e as a float32, for 0 <= e <= 127.
-func specPow2f(e int) float32 { return math.Float32frombits(uint32(e+127) << 23) }
+// specPow2f is 2^e as a float32, for 0 <= e <= 127 (bit-vector arithmetic only, so that the solver stays in
+// one theory).
+func specPow2f(e uint8) float32 { return math.Float32frombits((uint32(e) + 127) << 23) }
 
 // specRembValue is the value denoted by an 18-bit mantissa and a 6-bit exponent.
 func specRembValue(mantissa uint32, exp uint8) float32 {
-	return float32(mantissa&0x3FFFF) * specPow2f(int(exp&63))
+	return float32(mantissa&0x3FFFF) * specPow2f(exp&63)
 }
 
 func specRembMantissa(b []byte) uint32 {
 	return uint32(byteAt(b, 17)&3)<<16 | uint32(byteAt(b, 18))<<8 | uint32(byteAt(b, 19))
 }
+
+// specPow2i is 2^e as a float32 for an int exponent in 0..64 (table lookup keeps the exponent an integer).
+func specPow2i(e int) float32 {
+	t := [...]float32{0x1p0, 0x1p1, 0x1p2, 0x1p3, 0x1p4, 0x1p5, 0x1p6, 0x1p7, 0x1p8, 0x1p9, 0x1p10, 0x1p11, 0x1p12, 0x1p13, 0x1p14, 0x1p15,
+		0x1p16, 0x1p17, 0x1p18, 0x1p19, 0x1p20, 0x1p21, 0x1p22, 0x1p23, 0x1p24, 0x1p25, 0x1p26, 0x1p27, 0x1p28, 0x1p29, 0x1p30, 0x1p31,
+		0x1p32, 0x1p33, 0x1p34, 0x1p35, 0x1p36, 0x1p37, 0x1p38, 0x1p39, 0x1p40, 0x1p41, 0x1p42, 0x1p43, 0x1p44, 0x1p45, 0x1p46, 0x1p47,
+		0x1p48, 0x1p49, 0x1p50, 0x1p51, 0x1p52, 0x1p53, 0x1p54, 0x1p55, 0x1p56, 0x1p57, 0x1p58, 0x1p59, 0x1p60, 0x1p61, 0x1p62, 0x1p63, 0x1p64}
+	if e < 0 || e > 64 {
+		return 0
+	}
+	return t[e]
+}
+
+// specRembClamp: bitrates above the largest representable value saturate.
+func specRembClamp(b float32) float32 {
+	if b >= 0x3FFFFp+63 {
+		return 0x3FFFFp+63
+	}
+	return b
+}
+
+// specRembRaw is m * 2^e without masking m (m may be 2^18).
+func specRembRaw(m uint32, exp uint8) float32 { return float32(m) * specPow2f(exp&63) }
